@@ -349,6 +349,43 @@ enum Sc {
     Push { init: VmInit, perm_seed: u64 },
 }
 
+const ODD_NAMES: [&str; 12] = ["x", "X", "in1", "IN1", "In1", "in10", "é", "É", "", " ", "x ", "xX"];
+
+fn rename_in_prog(p: &mut checks::vm::Prog, map: &std::collections::BTreeMap<String, String>) {
+    use checks::vm::{Ins, Prog};
+    match p {
+        Prog::I(Ins::Input(n)) => {
+            if let Some(m) = map.get(n) {
+                *n = m.clone();
+            }
+        }
+        Prog::I(Ins::PushExec(b)) => rename_in_prog(b, map),
+        Prog::B(v) => v.iter_mut().for_each(|x| rename_in_prog(x, map)),
+        Prog::I(_) => {}
+    }
+}
+
+fn rename_inputs(init: &mut VmInit, g: &mut Xo) {
+    let mut pool: Vec<&str> = ODD_NAMES.to_vec();
+    g.shuffle(&mut pool);
+    let mut map = std::collections::BTreeMap::new();
+    for (n, _) in &init.inputs {
+        if !map.contains_key(n) {
+            if let Some(new) = pool.pop() {
+                map.insert(n.clone(), new.to_string());
+            }
+        }
+    }
+    for (n, _) in &mut init.inputs {
+        if let Some(m) = map.get(n) {
+            *n = m.clone();
+        }
+    }
+    for p in &mut init.program {
+        rename_in_prog(p, &map);
+    }
+}
+
 struct C16 {
     reg: Vec<RegOp>,
 }
@@ -633,6 +670,11 @@ impl Check for C16 {
             let mut init = sc.init;
             if init.limit > 300 {
                 init.limit = 300;
+            }
+            if g.coin() {
+                // unusual but legal names: differing only in case, prefixes of
+                // each other, non-ASCII — lookups must still be exact
+                rename_inputs(&mut init, g);
             }
             return Sc::Push { init, perm_seed: g.next_u64() };
         }
